@@ -107,6 +107,10 @@ class Stats:
                 "collected": self.collected}
 
 
+class CaseTimeout(BaseException):
+    """a single case ran longer than the per-case cap (raised from a SIGALRM handler)"""
+
+
 class Violation(Exception):
     pass
 
@@ -124,7 +128,32 @@ def worker(args):
     out = {"shard": args.shard, "status": "ok"}
     journal = os.path.join(args.workdir, "journal_%d.json" % args.shard) if getattr(prop, "JOURNAL", False) else None
 
+    case_cap = int(getattr(prop, "CASE_TIMEOUT", {"quick": 300, "thorough": 600}).get(args.tier, 300))
+
+    def _alarm(signum, frame):
+        raise CaseTimeout()
+
+    try:
+        import signal
+        signal.signal(signal.SIGALRM, _alarm)
+        have_alarm = True
+    except Exception:
+        have_alarm = False
+
     def body(case):
+        if have_alarm:
+            signal.alarm(case_cap)
+        try:
+            return body_inner(case)
+        except CaseTimeout:
+            # the library did not return: remember the case; the parent re-runs it alone before calling it a violation
+            fail["timeout_case"] = case
+            raise
+        finally:
+            if have_alarm:
+                signal.alarm(0)
+
+    def body_inner(case):
         sig = core.case_signature(case)
         if journal:
             with open(journal, "w") as f:
@@ -195,6 +224,10 @@ def worker(args):
                             suppress_health_check=list(HealthCheck), verbosity=hypothesis.Verbosity.quiet)
             test = seed(args.seed if ri == 0 else args.seed * 1000003 + ri)(sett(given(prop.strategy(args.tier))(body)))
             test()
+    except CaseTimeout:
+        out["status"] = "case_timeout"
+        out["fail_case"] = fail.get("timeout_case")
+        out["case_cap"] = case_cap
     except Violation:
         v = fail["verdict"]
         out["status"] = "violation"
@@ -395,6 +428,28 @@ def parent(args):
             merged.worst = stt["worst"]
             merged.worst_case = stt["worst_case"]
         merged.samples += stt["samples"]
+        if o["status"] == "case_timeout" and o.get("fail_case") is not None:
+            # a case did not return within the per-case cap while 15 other shards were running: run it once more, alone,
+            # with twice the cap. Only if it does not return then either is it reported (the routines promise a result);
+            # otherwise the first overrun is put down to load (a note, not a verdict).
+            cap2 = 2 * int(o.get("case_cap", 300))
+            tmpf = os.path.join(workdir, "timeout_case_%d.json" % s)
+            with open(tmpf, "w") as f:
+                json.dump(core.jsonable(o["fail_case"]), f)
+            try:
+                subprocess.run([sys.executable, "-m", "vt.run", pid, tier, "--replay", tmpf], cwd=VERIF, env=env,
+                               stdout=subprocess.DEVNULL, stderr=subprocess.DEVNULL, timeout=cap2)
+                notes.append("shard %d: one case exceeded the per-case cap of %ss under load but returned when re-run alone" % (s, o.get("case_cap")))
+            except subprocess.TimeoutExpired:
+                msg = "the call did not return within %d s (re-run alone; first attempt cut after %s s)" % (cap2, o.get("case_cap"))
+                feats = prop.features(o["fail_case"]) if hasattr(prop, "features") else {}
+                v = core.Verdict(ok=False, check="did_not_return", msg=msg, bucket="timeout")
+                kf = match_known(known, pid, feats, v)
+                if kf is not None:
+                    merged.known[kf["id"]] = merged.known.get(kf["id"], 0) + 1
+                else:
+                    rp = write_replay(pid, o["fail_case"], "did_not_return", msg, None)
+                    violations.append((rp, "did_not_return", msg))
         if o["status"] == "violation":
             rp = write_replay(pid, o["fail_case"], o["fail_check"], o["fail_msg"], o.get("fail_bucket"))
             violations.append((rp, o["fail_check"], o["fail_msg"]))
